@@ -351,9 +351,25 @@ func c16Edits(r *core.Result, seed int64, i int) {
 			}
 		}
 		r.Count("honest_opens", 1)
+		var D0 []*big.Int
 		try := func(what string, d []*big.Int, cc *big.Int) {
 			r.Count("decommit_edits", 1)
 			h := cmt.HashCommitDecommit{C: cc, D: d}
+			// the same edit applied to a value that has already been opened successfully once (same struct, fields
+			// reassigned): the answer must not depend on the history of the value
+			if cd2 := cmt.NewHashCommitmentWithRandomness(new(big.Int).Set(D0[0]), secrets...); cd2 != nil && cd2.Verify() {
+				cd2.C, cd2.D = cc, d
+				var v2 bool
+				if p, msg, _ := guard(func() { v2 = cd2.Verify() }); p {
+					r.Fail("edit-panic:"+what, "Verify panicked on edit %s of an opened value: %s", what, msg)
+				} else if v2 {
+					r.Fail("edit-opens-after-open:"+what, "a commitment value that had been opened once still opens after edit %s", what)
+				}
+				if ok3, _ := cd2.DeCommit(); ok3 {
+					r.Fail("edit-opens-after-open:"+what, "DeCommit of a value that had been opened once accepts edit %s", what)
+				}
+				r.Count("edits_after_open", 1)
+			}
 			var v bool
 			if p, msg, _ := guard(func() { v = h.Verify() }); p {
 				r.Fail("edit-panic:"+what, "Verify panicked on edit %s: %s", what, msg)
@@ -368,6 +384,7 @@ func c16Edits(r *core.Result, seed int64, i int) {
 			}
 		}
 		D := cd.D
+		D0 = D
 		clone := func() []*big.Int {
 			o := make([]*big.Int, len(D))
 			for k := range D {
